@@ -180,6 +180,7 @@ def register(reg):
 
     register_delays(reg)
     register_buffers(reg)
+    register_adapter_ctors(reg)
 
 
 _AD = {"name": "time-adapter-histories", "script": "replay/drivers/seq_adapter.py", "args": ["--json"], "timeout": 3000}
@@ -413,3 +414,35 @@ def register_buffers(reg):
             call_checks={"notify_targets": su_order},
             name=f"source_updated<{cls}>", primary=False,
         ))
+
+
+# =================================================================================================
+# constructors of the time adapters (C11 / C12 / C13): the configuration is what was passed, the state starts empty
+# =================================================================================================
+def register_adapter_ctors(reg):
+    from pyvc.sv import Real, TOpt, Bool, Int
+    from pyvc.sv import Delta
+    TI_ = "finam.adapters.time_integration"
+    specs = [
+        (f"{T}.StepTime", "StepTime", {"step": Real}, {"step": "step"}, ["C11.3"]),
+        (f"{T}.DelayFixed", "DelayFixed", {"delay": Delta}, {"delay": "delay"}, ["C13.1"]),
+        (f"{T}.DelayToPull", "DelayToPull", {"steps": Int, "additional_delay": Delta}, {"steps": "steps", "additional_delay": "additional_delay"}, ["C13.1"]),
+        (f"{TI_}.AvgOverTime", "AvgOverTime", {"step": TOpt(Real)}, {"step": "_step"}, ["C12.3"]),
+        (f"{TI_}.SumOverTime", "SumOverTime", {"step": TOpt(Real), "per_time": Bool, "initial_interval": Delta},
+         {"step": "_step", "per_time": "_per_time", "initial_interval": "_initial_interval"}, ["C12.2"]),
+    ]
+    for qual, cls, params, stored, props in specs:
+        def post(ctx, r, stored=stored, cls=cls):
+            s = ctx.self
+            out = {f"{f} is the argument {p}": sv.value_eq(ctx.get(s, f), ctx.arg(p)) for p, f in stored.items()}
+            if cls in ("StepTime", "AvgOverTime", "SumOverTime"):
+                out["the buffer starts empty"] = ctx.get(s, "data").n == 0
+            if cls in ("AvgOverTime", "SumOverTime"):
+                out["no window start yet"] = is_none(ctx.get(s, "_prev_time"))
+            if cls == "DelayToPull":
+                out["no request history yet"] = ctx.get(s, "_pulls").n == 0
+            return out
+
+        reg.add(Contract(f"{qual}.__init__", self_cls=cls, props=props, params=params, ensures=post, modifies=None,
+                         raises={"ValueError": lambda ctx: z3.BoolVal(False)},
+                         name=f"__init__<{cls}>", primary=False))
